@@ -1,9 +1,11 @@
 #!/bin/sh
-# usage: tools/rerun_seeded.sh [ids...]     (default: every directory under /verif/seeded)
+# usage: tools/rerun_seeded.sh [ids...]     (default: every directory under <verif>/seeded)
 # Regression over the archived seeded changes: each patch is applied to a scratch worktree of /repo's HEAD
-# (outside /repo and /verif, removed afterwards) and the checks recorded in its meta.json are run against it.
-# Prints one line per change: DETECTED <id> <checks that reported>, MISSED <id>, or STALE <id> (patch no longer applies).
-cd /verif || exit 2
+# (outside /repo and /verif, removed afterwards) and the check of its own property is run against it.
+# A patch that no longer applies is tried as patch_ported_to_later_head.diff, then with a 3-way merge.
+# Prints one line per change: DETECTED <id> <checks that reported>, MISSED <id>, or STALE <id> (the code it touched was repaired).
+here=$(cd "$(dirname "$0")/.." && pwd)
+cd "$here" || exit 2
 wt=$(mktemp -d /tmp/seeded_wt.XXXXXX)
 rmdir "$wt"
 git -C /repo worktree add -q --detach "$wt" HEAD || exit 2
@@ -13,12 +15,16 @@ ids="$*"
 for id in $ids; do
   d=seeded/$id
   [ -f "$d/patch.diff" ] || continue
-  if ! git -C "$wt" apply --check "$PWD/$d/patch.diff" 2>/dev/null; then echo "STALE    $id"; continue; fi
-  git -C "$wt" apply "$PWD/$d/patch.diff"
+  git -C "$wt" checkout -q -- . ; git -C "$wt" clean -fdq
+  how=""
+  if git -C "$wt" apply "$here/$d/patch.diff" 2>/dev/null; then how=plain
+  elif [ -f "$d/patch_ported_to_later_head.diff" ] && git -C "$wt" apply "$here/$d/patch_ported_to_later_head.diff" 2>/dev/null; then how=ported
+  elif git -C "$wt" apply --3way "$here/$d/patch.diff" >/dev/null 2>&1 && ! grep -rq "^<<<<<<<" "$wt/monkeytype"; then git -C "$wt" reset -q; how=3way
+  else git -C "$wt" reset -q --hard; echo "STALE    $id"; continue; fi
+  # a change whose demonstration passes again was neutralised by a later fix: commit
+  if [ -f "$d/demo.py" ] && (cd "$d" && PYTHONPATH="$wt" timeout 300 /venv/bin/python demo.py >/dev/null 2>&1); then echo "NEUTRAL  $id ($how; its demonstration passes on this tree)"; continue; fi
+  prop=${id%%-*}
   hit=""
-  for c in $(/venv/bin/python -c "import json,sys; print(' '.join(json.load(open('$d/meta.json'))['detected_by']))"); do
-    if VERIF_REPO="$wt" ./check "$c" 2>/dev/null | grep -q "^VIOLATION property=$c "; then hit="$hit $c"; fi
-  done
-  git -C "$wt" checkout -- monkeytype
-  if [ -n "$hit" ]; then echo "DETECTED $id$hit"; else echo "MISSED   $id"; fi
+  if VERIF_REPO="$wt" ./check "$prop" 2>/dev/null | grep -q "^VIOLATION property=$prop "; then hit="$prop"; fi
+  if [ -n "$hit" ]; then echo "DETECTED $id ($how)"; else echo "MISSED   $id ($how)"; fi
 done
